@@ -266,7 +266,13 @@ func refParseTraceparent(h string) refTP {
 		return r
 	}
 	if len(h) > 55 {
-		if r.Version == 0 {
+		// Reading: a version-00 value followed by exactly ONE trailing "-" is
+		// not counted as malformed. The W3C grammar allows nothing after the
+		// flags of version 00, but the repository's own test table
+		// (propagation/trace_context_test.go, "… ending in dash") requires the
+		// propagator to accept that input, so the leniency is deliberate and
+		// a check demanding rejection would contradict the pinned suite.
+		if r.Version == 0 && !(len(h) == 56 && h[55] == '-') {
 			r.Why = "version 00 with trailing data"
 			return r
 		}
